@@ -4,6 +4,7 @@ import (
 	"encoding/json"
 	"fmt"
 	"strings"
+	"sync"
 	"testing"
 
 	tls "github.com/refraction-networking/utls"
@@ -44,7 +45,7 @@ func validateHello(r *mon.Run, raw []byte, sig map[string]string, replay any, se
 
 // C02 — Every ClientHello utls emits is syntactically valid TLS.
 func TestC02(t *testing.T) {
-	r := mon.New("C02", "(i) every parrot/Golang x Config variants (16 ServerName shapes, NextProtos lists, session cache with TLS1.2/1.3 sessions, OmitEmptyPsk, QUIC); (ii) randomized IDs x seeds x weight corners; (iii) generated custom specs (each extension type at most once, RFC-limit field values incl. boundary vectors); (iv) specs fingerprinted / JSON-imported from syntactically valid foreign hellos written by the harness' own encoder; every emitted hello (Hello.Raw and, sampled, the tapped wire bytes) parsed by the independent strict parser. distinct = normalised hello shapes")
+	r := mon.New("C02", "(i) every parrot/Golang x Config variants (16 ServerName shapes, NextProtos lists, session cache with TLS1.2/1.3 sessions, OmitEmptyPsk, QUIC); (ii) randomized IDs x seeds x weight corners; (iii) generated custom specs (each extension type at most once, RFC-limit field values incl. boundary vectors); (iv) specs fingerprinted / JSON-imported from syntactically valid foreign hellos written by the harness' own encoder; every emitted hello (Hello.Raw and, sampled, the tapped wire bytes) parsed by the independent strict parser; (vi) both ClientHellos of handshakes behind a HelloRetryRequest with and without a cookie. distinct = normalised hello shapes")
 	defer r.Finish(t)
 	seenExt := map[uint16]int{}
 	var emitted, errored int64
@@ -315,6 +316,76 @@ func TestC02(t *testing.T) {
 	r.Count("capture_replay_sweep", sweep)
 	r.Count("foreign_imported", imported)
 	r.Count("foreign_rejected_by_importer", rejected)
+	// (vi) second ClientHellos: every hello the client puts on the wire during a handshake with a
+	// server that answers with a HelloRetryRequest (with and without a cookie, hooks H1/H6/H8)
+	{
+		type hjob struct {
+			t      Target
+			g      tls.CurveID
+			cookie int
+		}
+		var hjobs []hjob
+		var tgs []Target
+		tgs = append(tgs, ParrotTargets(false)...)
+		for i := 0; i < mon.Pick(20, 400); i++ {
+			tgs = append(tgs, RandomizedTarget(i), CustomTarget(i))
+		}
+		for ti, tg := range tgs {
+			ch, err := tg.Probe("example.test")
+			if err != nil || ch.Has(wire.ExtPreSharedKey) {
+				continue
+			}
+			g := hrrGroupFor(ch)
+			if g == 0 || len(ch.Versions) == 0 {
+				continue
+			}
+			for ci, cs := range []int{0, 1, 32, 1000, 20000} {
+				if !mon.Thorough() && ti >= len(AllParrots) && ci != ti%5 {
+					continue
+				}
+				hjobs = append(hjobs, hjob{tg, g, cs})
+			}
+		}
+		var second int64
+		var hmu sync.Mutex
+		parallel(len(hjobs), func(i int) {
+			j := hjobs[i]
+			var cookie []byte
+			if j.cookie > 0 {
+				cookie = randBytes(Sub("C02cookie", i), j.cookie)
+			}
+			plan := &tls.VerifPlan{ForceGroup: j.g, ClearCookie: true}
+			if cookie != nil {
+				plan.RewriteOut = func(isClient bool, data []byte) []byte {
+					if isClient || len(data) < 4 || data[0] != 2 {
+						return nil
+					}
+					sh, err := wire.ParseServerHello(data)
+					if err != nil || !sh.IsHRR {
+						return nil
+					}
+					sh.SetExt(wire.ExtCookie, vec16(cookie))
+					return sh.Marshal()
+				}
+			}
+			h := RunCase(j.t, GridCase{Server: peer.ServerConfig(), Plan: plan, Dim: "hrr", Val: fmt.Sprint(j.cookie)}, "example.test", nil, peer.Opts{NoEcho: true})
+			hs := wire.ClientHellos(h.C2S)
+			for k, raw := range hs {
+				hmu.Lock()
+				emitted++
+				hmu.Unlock()
+				sig := map[string]string{"part": "vi", "label": family(j.t.Name), "hello": fmt.Sprint(k + 1), "cookie": fmt.Sprint(j.cookie > 0)}
+				if validateHello(r, raw, sig, map[string]any{"target": j.t.Name, "cookie_len": j.cookie, "hello_index": k + 1}, nil) != nil && k == 1 {
+					hmu.Lock()
+					second++
+					hmu.Unlock()
+				}
+			}
+			r.Case(fmt.Sprintf("vi|%s|%d|%d", family(j.t.Name), j.cookie, len(hs)), len(hs) > 1)
+		})
+		r.Count("second_hellos_validated", second)
+		r.Floor("second_hellos_validated", 100)
+	}
 	r.Count("hellos_emitted", emitted)
 	r.Count("build_errors", errored)
 	for t, n := range seenExt {
